@@ -462,7 +462,7 @@ package statefulset
 //@     invariant [C01,C03,C04,C05,C07,C12,C14] placedsnap: forall o int :: {replicas[o]} 0 <= o && o < replicaCount && replicas[o] != nil ==> inSnap(replicas[o]) && ordOf(replicas[o]) == o
 //@     invariant [C01,C04] placeddesired: forall o int :: {replicas[o]} 0 <= o && o < replicaCount && replicas[o] != nil ==> desiredG(o)
 //@     invariant [C03,C05,C14] condemnedok: forall j int :: {condemned[j]} 0 <= j && j < len(condemned) ==> condemned[j] != nil && condemnedP(condemned[j])
-//@     invariant [C01,C04,C05,C07,C14] occupied: forall k int :: {pods[k]} 0 <= k && k < i && desiredG(ordOf(pods[k])) ==> replicas[ordOf(pods[k])] == pods[k]
+//@     invariant [C01,C02,C04,C05,C07,C14] occupied: forall k int :: {pods[k]} 0 <= k && k < i && desiredG(ordOf(pods[k])) ==> replicas[ordOf(pods[k])] == pods[k]
 //@     invariant [C05,C14] condemnedall: forall k int :: {pods[k]} 0 <= k && k < i && condemnedP(pods[k]) ==> 0 <= cpos[k] && cpos[k] < len(condemned) && condemned[cpos[k]] == pods[k]
 //@     invariant [C12] census: status.ReadyReplicas == count(rdyI, 0, i) && status.CurrentReplicas == count(curI, 0, i) && status.UpdatedReplicas == count(updI, 0, i)
 //@     invariant [C12] censussets: forall k int :: {pods[k]} {liveI[k]} {rdyI[k]} {curI[k]} {updI[k]} 0 <= k && k < i ==> sidx[pods[k]] == k && liveI[k] && (rdyI[k] <==> isRunningAndReadyS(pods[k])) && (curI[k] <==> (isCreatedS(pods[k]) && !isTerminatingS(pods[k]) && revOf(pods[k]) == gCurRev)) && (updI[k] <==> (isCreatedS(pods[k]) && !isTerminatingS(pods[k]) && revOf(pods[k]) == gUpdRev))
@@ -472,13 +472,13 @@ package statefulset
 //@     invariant [C02] nonewq: calm ==> (forall o int :: {replicas[o]} 0 <= o && o < replicaCount && replicas[o] != nil ==> inSnap(replicas[o]))
 //@     invariant 0 <= ord && ord <= replicaCount && len(replicas) == replicaCount
 //@     invariant alloc: forall o int :: {replicas[o]} 0 <= o && o < replicaCount ==> allocated(replicas[o])
-//@     invariant [C01,C03,C04,C05,C07,C12,C14] placedord: forall o int :: {replicas[o]} 0 <= o && o < replicaCount && replicas[o] != nil ==> ordOf(replicas[o]) == o && (inSnap(replicas[o]) || isNewP(replicas[o]))
+//@     invariant [C01,C02,C03,C04,C05,C07,C12,C14] placedord: forall o int :: {replicas[o]} 0 <= o && o < replicaCount && replicas[o] != nil ==> ordOf(replicas[o]) == o && (inSnap(replicas[o]) || isNewP(replicas[o]))
 //@     invariant [C12] labelsalloc: forall o int :: {replicas[o]} 0 <= o && o < replicaCount && replicas[o] != nil ==> allocated(replicas[o].Labels)
 //@     invariant [C12] newlabels: forall o int :: {replicas[o]} 0 <= o && o < replicaCount && replicas[o] != nil && !inSnap(replicas[o]) ==> replicas[o].Labels >= gTmplHi
 //@     invariant [C01,C04] snapdesired: forall o int :: {replicas[o]} 0 <= o && o < replicaCount && replicas[o] != nil && inSnap(replicas[o]) ==> desiredG(o)
 //@     invariant [C01,C04] onlydesired: forall o int :: {replicas[o]} 0 <= o && o < replicaCount && replicas[o] != nil ==> desiredG(o) && (inSnap(replicas[o]) || vacant(o))
-//@     invariant [C01,C04,C05,C07,C14] filled: forall o int :: {replicas[o]} 0 <= o && o < ord && desiredG(o) ==> replicas[o] != nil
-//@     invariant [C01,C04,C05,C07,C14] occupied: forall k int :: {pods[k]} 0 <= k && k < len(pods) && desiredG(ordOf(pods[k])) ==> replicas[ordOf(pods[k])] == pods[k]
+//@     invariant [C01,C02,C04,C05,C07,C14] filled: forall o int :: {replicas[o]} 0 <= o && o < ord && desiredG(o) ==> replicas[o] != nil
+//@     invariant [C01,C02,C04,C05,C07,C14] occupied: forall k int :: {pods[k]} 0 <= k && k < len(pods) && desiredG(ordOf(pods[k])) ==> replicas[ordOf(pods[k])] == pods[k]
 //@   at call Sort#1 after: assert [C03,C05,C14] condemnedok: forall j int :: {condemned[j]} 0 <= j && j < len(condemned) ==> condemned[j] != nil && condemnedP(condemned[j])
 //@   at call Sort#1 after: assert [C05,C14] condemnedall: forall k int :: {pods[k]} 0 <= k && k < len(pods) && condemnedP(pods[k]) ==> 0 <= sortPinv[cpos[k]] && sortPinv[cpos[k]] < len(condemned) && condemned[sortPinv[cpos[k]]] == pods[k]
 //@   at call Sort#1 after: assert [C12] distinct: forall a int, b int :: {condemned[a], condemned[b]} 0 <= a && a < b && b < len(condemned) ==> condemned[a] != condemned[b]
@@ -497,13 +497,13 @@ package statefulset
 //@     invariant [C09] writes: gWrites >= old(gWrites) && gPodTouch >= old(gPodTouch) && gCtlFails == old(gCtlFails)
 //@     invariant alloc: forall o int :: {replicas[o]} 0 <= o && o < replicaCount ==> allocated(replicas[o])
 //@     invariant statusrange: 0 - i <= status.Replicas && status.Replicas <= len(pods) + i && 0 - i <= status.CurrentReplicas && status.CurrentReplicas <= len(pods) + i && 0 - i <= status.UpdatedReplicas && status.UpdatedReplicas <= len(pods) + i
-//@     invariant [C01,C03,C04,C05,C07,C12,C14] placedord: forall o int :: {replicas[o]} {count(gS, 0, o)} 0 <= o && o < replicaCount && replicas[o] != nil ==> ordOf(replicas[o]) == o && (inSnap(replicas[o]) || isNewP(replicas[o]))
+//@     invariant [C01,C02,C03,C04,C05,C07,C12,C14] placedord: forall o int :: {replicas[o]} {count(gS, 0, o)} 0 <= o && o < replicaCount && replicas[o] != nil ==> ordOf(replicas[o]) == o && (inSnap(replicas[o]) || isNewP(replicas[o]))
 //@     invariant [C12] labelsalloc: forall o int :: {replicas[o]} 0 <= o && o < replicaCount && replicas[o] != nil ==> allocated(replicas[o].Labels)
 //@     invariant [C12] newlabels: forall o int :: {replicas[o]} 0 <= o && o < replicaCount && replicas[o] != nil && !inSnap(replicas[o]) ==> replicas[o].Labels >= gTmplHi
 //@     invariant [C01,C04] snapdesired: forall o int :: {replicas[o]} 0 <= o && o < replicaCount && replicas[o] != nil && inSnap(replicas[o]) ==> desiredG(o)
 //@     invariant [C01,C04] onlydesired: forall o int :: {replicas[o]} 0 <= o && o < replicaCount && replicas[o] != nil ==> desiredG(o)
 //@     invariant [C01,C04] pending: forall o int :: {replicas[o]} i <= o && o < replicaCount && replicas[o] != nil && !inSnap(replicas[o]) ==> vacant(o)
-//@     invariant [C01,C04,C05,C07,C14] filled: forall o int :: {replicas[o]} {count(gS, 0, o)} 0 <= o && o < replicaCount && desiredG(o) ==> replicas[o] != nil
+//@     invariant [C01,C02,C04,C05,C07,C14] filled: forall o int :: {replicas[o]} {count(gS, 0, o)} 0 <= o && o < replicaCount && desiredG(o) ==> replicas[o] != nil
 //@     invariant [C04] createdlow: forall o int :: {gCreated[o]} gCreated[o] ==> 0 <= o && o < i
 //@     invariant [C03] replaced: forall o int :: {gReplaceDue[o]} gReplaceDue[o] ==> gCreated[o]
 //@     invariant [C05] mono: gMonotonic ==> gNact == 0 && (forall o int :: {replicas[o]} {count(gS, 0, o)} 0 <= o && o < i && replicas[o] != nil ==> inSnap(replicas[o]) && isRunningAndReadyS(replicas[o]) && !isTerminatingS(replicas[o]))
